@@ -2,45 +2,27 @@ package main
 
 import (
 	"fmt"
+	"os"
+	"time"
 
-	"github.com/pentops/j5/internal/zzverif/gj5s"
+	"github.com/pentops/j5/internal/zzverif/gpb"
 	"github.com/pentops/j5/lib/j5codec"
-	"google.golang.org/protobuf/proto"
-	"google.golang.org/protobuf/reflect/protoreflect"
 	"google.golang.org/protobuf/types/dynamicpb"
 )
 
 func main() {
-	gj5s.Silence()
-	b := gj5s.NewBundle()
-	b.Add("t/v1/a.j5s", "package t.v1\n\nobject Foo {\n\tfield when timestamp\n\tfield amount decimal\n\tfield day date\n}\n")
-	files, err := b.Compile("t.v1")
-	if err != nil {
+	root := &gpb.Message{Name: "T", Fields: []*gpb.Field{gpb.F("amount", 1, gpb.KDecimal, gpb.Single)}}
+	s := &gpb.Schema{Messages: []*gpb.Message{root}, Root: root}
+	if err := s.Build(); err != nil {
 		panic(err)
 	}
-	var fds []protoreflect.FileDescriptor
-	for _, f := range files {
-		fds = append(fds, f)
-	}
-	reg, err := gj5s.Relink(fds)
-	if err != nil {
-		panic(err)
-	}
-	d, _ := reg.FindDescriptorByName("t.v1.Foo")
-	md := d.(protoreflect.MessageDescriptor)
 	codec := j5codec.NewCodec()
-	msg := dynamicpb.NewMessage(md)
-	err = codec.JSONToProto([]byte(`{"when":"2024-01-02T03:04:05Z","amount":"1.5","day":"2024-02-03"}`), msg)
-	fmt.Println("decode err:", err)
-	bb, err := proto.Marshal(msg)
-	fmt.Println("marshal:", len(bb), err)
-	msg2 := dynamicpb.NewMessage(md)
-	fmt.Println("unmarshal:", proto.Unmarshal(bb, msg2))
-	fmt.Println("equal(decoded, reparsed):", proto.Equal(msg, msg2))
-	out, err := codec.ProtoToJSON(msg2)
-	fmt.Println("encode reparsed:", string(out), err)
-	func() {
-		defer func() { fmt.Println("clone panic:", recover()) }()
-		_ = proto.Clone(msg)
-	}()
+	for _, doc := range os.Args[1:] {
+		msg := dynamicpb.NewMessage(s.Desc(root))
+		t0 := time.Now()
+		err := codec.JSONToProto([]byte(doc), msg)
+		fmt.Printf("%s: %v err=%v\n", doc, time.Since(t0), err != nil)
+		out, err := codec.ProtoToJSON(msg)
+		fmt.Printf("  encode: %d bytes err=%v\n", len(out), err)
+	}
 }
